@@ -11,6 +11,7 @@ mod findings;
 mod gen;
 mod props;
 mod refmatch;
+mod refrules;
 mod rxgen;
 
 use engine::Tier;
